@@ -9,21 +9,21 @@
 (* need to fit the buffer) TLC must report BufferBlind violated.                *)
 EXTENDS MC_WsReader
 
-VARIABLES role2, limit2, bufsize2, open2, accLen2, frags2, failed2, alts2, cc2, delivered2, back2, pending2, ended2, n2,
+VARIABLES role2, limit2, pmd2, zopen2, taken2, bufsize2, open2, accLen2, frags2, failed2, alts2, cc2, delivered2, back2, pending2, ended2, n2,
           pings2, fins2
 
 B == INSTANCE WsReader WITH
-       role <- role2, limit <- limit2, bufsize <- bufsize2, open <- open2, accLen <- accLen2, frags <- frags2,
+       role <- role2, limit <- limit2, pmd <- pmd2, zopen <- zopen2, taken <- taken2, bufsize <- bufsize2, open <- open2, accLen <- accLen2, frags <- frags2,
        failed <- failed2, alts <- alts2, cc <- cc2, delivered <- delivered2, back <- back2, pending <- pending2,
        ended <- ended2, n <- n2, pings <- pings2, fins <- fins2
 
-PInit == Init /\ B!Init /\ role2 = role /\ limit2 = limit
+PInit == Init /\ B!Init /\ role2 = role /\ limit2 = limit /\ pmd2 = pmd
 
 \* the peer does not know the receiver's buffer: one frame, both receivers (the end inside a frame is left to
 \* WsReader's own CutIn: its outcome is a free choice among classes, not a function)
 PNext == \/ \E f \in Sendable : Frame(f) /\ B!Frame(f)
          \/ CutBoundary /\ B!CutBoundary
 
-PTypeOk == TypeOk /\ B!TypeOk /\ role2 = role /\ limit2 = limit
+PTypeOk == TypeOk /\ B!TypeOk /\ role2 = role /\ limit2 = limit /\ pmd2 = pmd
 BufferBlind == Observable = B!Observable
 =============================================================================
